@@ -142,6 +142,8 @@ def run_case(tape, tier):
     if exc_w is not None:
         res.probes["parse_raised_same_both_ways"] += 1
     inside = [c for c in cuts if data[c - 1:c + 1] == b"\r\n"]
+    res.faults["short_read"] += len(cuts)
+    res.faults["short_read_between_cr_and_lf"] += len(inside)
     if inside:
         res.probes["cut_inside_crlf"] += 1
     if any(d.get("n100") for d in descs):
